@@ -423,7 +423,9 @@ def new_table(R, ctx):
     for crit in ('Size', 'AgeOrSize'):
         for app in (True, False):
             if (crit, app) not in seen:
-                R.bad('R08.5', f"RollState::new|{crit}|append={app}", "row missing from the table", where=b.loc())
+                R.bad('R08.5', f"RollState::new|{crit}|append={app}", f"RollState::new has no row on which criterion {crit} with append={app} yields a {crit} state whose current_size is "
+                      + ("seeded from the length of the existing file" if app else "0") + " (e.g. the criterion falls into another arm): a restart forgets the bytes already in the current file "
+                      "and the file grows beyond the limit", where=b.loc())
 
 
 def who_writes(R, ctx):
